@@ -234,6 +234,18 @@ def gen_T08():
              '%s: wanted set changed' % fn)
     need(not any(isinstance(n, ast.Attribute) and n.attr == 'REQUEST_CAPABILITIES' and isinstance(getattr(n, 'ctx', None), ast.Store)
                  for n in ast.walk(irc)), 'REQUEST_CAPABILITIES is assigned inside Irc')
+    # nothing inside Irc updates REQUEST_CAPABILITIES (or an alias of it) in place
+    for fn in ('_wantedCapabilities', 'resetSasl', 'doCapLs', 'doCapNew', '_requestCaps'):
+        need(not any(isinstance(n, ast.AugAssign) for n in ast.walk(find_def(t, fn, 'Irc')) if not (isinstance(n, ast.AugAssign) and ast.unparse(n.target) == 'self.state.capabilities_req')),
+             '%s: in-place update (augmented assignment) of a capability set' % fn)
+    # _applyStsPolicy (C09), statement by statement: lookup, no policy -> as configured, parse, expiry -> removed and as configured, else the policy port with forced verification
+    ap = [ast.unparse(x) for x in _body(find_def(d, '_applyStsPolicy', 'ServersMixin'))]
+    need(len(ap) == 8 and ap[0] == 'network = ircdb.networks.getNetwork(self.networkName)'
+         and ap[3].startswith('if policy is None:') and ap[3].rstrip().endswith('return server')
+         and ap[4] == 'policy = ircutils.parseStsPolicy(log, policy, parseDuration=True)'
+         and ap[5].startswith("if lastDisconnect is not None and lastDisconnect + policy['duration'] < time.time():") and ap[5].rstrip().endswith('return server')
+         and ap[6].startswith('log.info(') and ap[7] == "return Server(server.hostname, policy['port'], server.attempt, force_tls_verification=True)",
+         '_applyStsPolicy: statements changed: %r' % [x[:40] for x in ap])
     has_filter = any(isinstance(n, ast.FunctionDef) and n.name == 'filterSaslMechanisms' for n in irc.body)
     order = ['on_init_messages_sent', 'on_sasl_cap', 'on_sasl_auth_finished', 'on_cap_end', 'on_start_motd', 'on_end_motd', 'on_shutdown']
     out = '(* FSM states: ' + ', '.join('%s=%d' % kv for kv in sorted(states.items(), key=lambda kv: kv[1])) + ' *)\n'
